@@ -34,6 +34,15 @@ Grow(M, X) == LET Y == X \cup UNION {{d \in DestsOf(NodeAt(M, i)) : Exists(M, d)
 (* The rules are read over the nodes reachable from the root (the documentation marks "no unreachable
    nodes" optional and says python-ndn does not check it; reading every rule over reachable nodes only
    is the reading with the fewest obligations). *)
+(* Two things the documented list does NOT contain, and which therefore carry no obligation here (triage of
+   observations on the unchanged library, round 8):
+   - StartId.  A model without a StartId element, or with one that names no node, has no root: nothing is reachable,
+     every rule below holds vacuously, Sane is TRUE and no outcome of the loader is prescribed (python-ndn raises
+     LvsModelError for a StartId beyond the nodes and TypeError for a missing one).
+   - Cycles in the signing relation between nodes.  "Every SignConstraint refers to an existing destination node ID"
+     is all the format asks of signer ids; a corrupted id that stays in range and closes a cycle leaves the model
+     Sane (python-ndn rejects it with the schema error SemanticError, the class it uses for cyclic signing
+     relations of a source text - C13 prescribes LvsModelError only for a broken sanity rule). *)
 Reach(M) == IF M.hstart /\ Exists(M, M.start) THEN Grow(M, {M.start}) ELSE {}
 
 -----------------------------------------------------------------------------
